@@ -88,7 +88,9 @@ int BackendApp::Run(char **argv) {
     // we try to print the result into .sol file,
     // if the solution handler is available.
     GetBackend().ReportError(
-          er.exit_code()>=0 ? er.exit_code() : sol::FAILURE,
+          // Errors without a solve_result code carry EXIT_FAILURE (1)
+          // or -1, which must not be reported as 'solved' (0-99)
+          er.exit_code()>sol::SOLVED_LAST ? er.exit_code() : sol::FAILURE,
           std::string(GetBackend().long_name()) + ":  "
           + er.what());
   } catch (const std::exception& ex) {
